@@ -3,6 +3,8 @@
 package frundis
 
 import (
+	"path"
+
 	"codeberg.org/anaseto/gofrundis/ast"
 	"codeberg.org/anaseto/gofrundis/parser"
 )
@@ -56,7 +58,7 @@ func processFile(exp Exporter, filename string) error {
 		ctx.files[filename] = blocks
 	}
 	loc := ctx.loc
-	ctx.incFiles = append(ctx.incFiles, filename)
+	ctx.incFiles = append(ctx.incFiles, path.Clean(filename))
 	defer func() {
 		ctx.loc = loc
 		ctx.incFiles = ctx.incFiles[:len(ctx.incFiles)-1]
